@@ -930,6 +930,145 @@ func runE2E(in input) lib.Case {
 		Key: fmt.Sprint(in.Servers, in.Runs, in.BF, in.TCP, in.Seed)}
 }
 
+// runStress: a large backlog of parked messages for tree A is flushed while several
+// goroutines keep parking messages for tree B; then tree B arrives. Every message for B
+// must reach its instance exactly once. (Only the send and the receive log of the B
+// messages are compared; nothing is forced.)
+func runStress(in input) lib.Case {
+	cnt = &counters{tokOf: map[int]onet.TokenID{}, insts: map[onet.RoundID]*tproto{}, ctor: map[onet.RoundID]int{}}
+	lt := onet.NewLocalTest(suite)
+	lt.Check = onet.CheckNone
+	servers := lt.GenServers(3)
+	rID = servers[0].ServerIdentity.ID
+	roster := lt.GenRosterFromHost(servers...)
+	trees := mkTrees(roster)
+	ov := servers[0].VerifOverlay()
+	sched := lib.NewSched()
+	onet.SetVerifHook(sched.Hook)
+	defer func() {
+		onet.SetVerifHook(func(string, ...interface{}) {})
+		cnt.Lock()
+		var ps []*tproto
+		for _, p := range cnt.insts {
+			ps = append(ps, p)
+		}
+		cnt.Unlock()
+		for _, p := range ps {
+			p.Done()
+		}
+		closeAll(lt)
+		cnt = nil
+	}()
+	pid := onet.ProtocolNameToID(protoName)
+	mkTok := func(tr *onet.Tree) *onet.Token {
+		return &onet.Token{RosterID: tr.Roster.ID, TreeID: tr.ID, ProtoID: pid,
+			RoundID: onet.RoundID(uuid.Must(uuid.NewRandom())), TreeNodeID: tr.Root.ID}
+	}
+	tokA, tokB := mkTok(trees[0]), mkTok(trees[1])
+	send := func(tr *onet.Tree, tok *onet.Token, id int) {
+		child := tr.Root.Children[0]
+		buf, _ := network.Marshal(&Ping{N: id, Body: body(id)})
+		ov.Process(&network.Envelope{ServerIdentity: child.ServerIdentity, MsgType: onet.ProtocolMsgID,
+			Msg: &onet.ProtocolMsg{From: tok.ChangeTreeNodeID(child.ID), To: tok, MsgSlice: buf, MsgType: network.MessageType(&Ping{})}})
+	}
+	arrive := func(tr *onet.Tree) {
+		ov.Process(&network.Envelope{ServerIdentity: tr.Root.Children[0].ServerIdentity, MsgType: onet.ResponseTreeMsgID,
+			Msg: &onet.ResponseTree{TreeMarshal: tr.MakeTreeMarshal(), Roster: tr.Roster}})
+	}
+	backlog := in.Runs // number of messages parked for tree A
+	for i := 0; i < backlog; i++ {
+		cnt.Lock()
+		cnt.tokOf[1000000+i] = tokA.ID()
+		cnt.Unlock()
+		send(trees[0], tokA, 1000000+i)
+	}
+	var mu sync.Mutex
+	var sentB []int
+	stop := int32(0)
+	var wg sync.WaitGroup
+	for g := 0; g < in.Servers; g++ {
+		wg.Add(1)
+		go func(g int) {
+			defer wg.Done()
+			for j := 0; j < 150 && atomic.LoadInt32(&stop) == 0; j++ {
+				id := 1 + g*10000 + j
+				cnt.Lock()
+				cnt.tokOf[id] = tokB.ID()
+				cnt.Unlock()
+				mu.Lock()
+				sentB = append(sentB, id)
+				mu.Unlock()
+				send(trees[1], tokB, id)
+			}
+		}(g)
+	}
+	fdA := sched.Block("overlay.flushDone", 1, func(args []interface{}) bool {
+		t, ok := args[1].(*onet.Tree)
+		return ok && t.ID.Equal(trees[0].ID)
+	})
+	time.Sleep(time.Duration(in.BF) * 100 * time.Microsecond)
+	arrive(trees[0])
+	okA := fdA.WaitHit(30 * time.Second)
+	fdA.Release()
+	atomic.StoreInt32(&stop, 1)
+	wg.Wait()
+	fdB := sched.Block("overlay.flushDone", 1, func(args []interface{}) bool {
+		t, ok := args[1].(*onet.Tree)
+		return ok && t.ID.Equal(trees[1].ID)
+	})
+	arrive(trees[1])
+	okB := fdB.WaitHit(30 * time.Second)
+	fdB.Release()
+	if !okA || !okB {
+		return lib.Case{Discard: true, Class: in.Name, Obs: "flush did not finish"}
+	}
+	// a message of B sent after the tree arrived is delivered directly; wait until the pending list is empty
+	deadline := time.Now().Add(10 * time.Second)
+	for time.Now().Before(deadline) && len(ov.VerifPending()) > 0 {
+		time.Sleep(time.Millisecond)
+	}
+	cnt.Lock()
+	var recvB [][2]int
+	nA := 0
+	for _, a := range cnt.accepted {
+		if a >= 1000000 {
+			nA++
+		} else {
+			recvB = append(recvB, [2]int{a, 1})
+		}
+	}
+	wrong := cnt.wrong
+	cnt.Unlock()
+	// ids are renumbered densely (Coq nat literals are unary): sent = 1..M
+	sort.Ints(sentB)
+	dense := map[int]int{}
+	var sent [][2]int
+	for i, id := range sentB {
+		dense[id] = i + 1
+		sent = append(sent, [2]int{i + 1, 1})
+	}
+	for i := range recvB {
+		if d, ok := dense[recvB[i][0]]; ok {
+			recvB[i][0] = d
+		} else {
+			recvB[i][0] = len(sentB) + 1 // something nobody sent
+		}
+	}
+	if nA != backlog || wrong > 0 {
+		// a lost / misdelivered message of the backlog: an extra sent pair that was never received
+		sent = append(sent, [2]int{len(sentB) + 2, 0})
+	}
+	less := func(s [][2]int) func(i, j int) bool {
+		return func(i, j int) bool { return s[i][0] < s[j][0] }
+	}
+	sort.Slice(sent, less(sent))
+	sort.Slice(recvB, less(recvB))
+	coq := fmt.Sprintf("CE2E %s %s", lib.PairList(sent), lib.PairList(recvB))
+	obs := map[string]interface{}{"backlog": backlog, "backlog_delivered": nA, "sent_B": len(sentB), "received_B": len(recvB),
+		"still_parked": len(ov.VerifPending())}
+	return lib.Case{Coq: coq, Class: in.Name, Obs: obs, Nontrivial: len(sentB) > 3, Key: fmt.Sprint(in.Seed, in.Runs, in.Servers)}
+}
+
 func run(raw json.RawMessage) lib.Case {
 	var in input
 	if err := json.Unmarshal(raw, &in); err != nil {
@@ -937,6 +1076,9 @@ func run(raw json.RawMessage) lib.Case {
 	}
 	if in.Kind == "e2e" {
 		return runE2E(in)
+	}
+	if in.Kind == "stress" {
+		return runStress(in)
 	}
 	return runTrace(in)
 }
@@ -987,6 +1129,15 @@ func generate(rng *rand.Rand, tier string) []interface{} {
 		}
 		ins = append(ins, input{Kind: "e2e", Name: name, TCP: tcp, Servers: 3 + rng.Intn(5), Runs: 1 + rng.Intn(4),
 			BF: 1 + rng.Intn(3), Seed: rng.Int63()})
+	}
+	nstress := 6
+	if tier != "quick" {
+		nstress = 60
+	}
+	for i := 0; i < nstress; i++ {
+		// Runs = backlog of the other tree, Servers = parking goroutines, BF = delay before the tree arrives
+		ins = append(ins, input{Kind: "stress", Name: "stress-park-during-flush", Runs: 5000 + rng.Intn(25000), Servers: 4 + rng.Intn(8),
+			BF: rng.Intn(20), Seed: rng.Int63()})
 	}
 	return ins
 }
